@@ -271,6 +271,10 @@ def evaluate(states, report, tier):
         o = val(s, "opts")
         supported_dyn = not any(x in o for x in ("ref", "Borrow")) or (dyn_compatible(s) and val(s, "supers") in ("", ": 'static"))
         if "TImpl" in o and (val(s, "generics") or val(s, "supers") not in ("", ": 'static")):
+            supported_dyn = False
+        if any(x in o for x in ("ref", "Borrow")) and (val(s, "generics") or (val(s, "async") == "at" and "Sync" not in val(s, "supers"))):
+            # dyn delegation of a generic trait needs `X: 'static` (default object lifetime), and an async_trait'd trait behind a
+            # reference needs `: Sync`: both are requirements on the user's trait, not on the macro (C06 exercises the working forms)
             supported_dyn = False   # generic trait / supertraits + delegation target: not supported by the macro (TODO in its source), outside C09
         if not rejected and not unimock_off and supported_dyn:
             if res.errors:
